@@ -20,6 +20,10 @@ def check(ctx):
     ctx.doc('R2', 'distance from the start = metric length of the cumulative minimum-image displacement (as C01.R4)')
     ctx.doc('R3', 'tracer_diffusivity = mean over atoms of the squared final distance * angstrom^2 / (2 * dimensions * total_time)')
     ctx.floor('R1', 2)
+    ctx.doc('K1', '[C20.R1] tracer diffusivity and the other metrics are served through weak_lru_cache: its cache must be keyed on weakref.ref(self) '
+                  '(an id()-keyed cache hands a dead object\'s result to a new object at the same address)')
+    from .C20 import check_decorator
+    check_decorator(ctx, 'K1')
     ctx.floor('R3', 3)
     fi = ctx.fn(f'{TRAJ}.mean_squared_displacement')
     it = ctx.entry(fi.qualname)
